@@ -346,14 +346,14 @@ func (st *State) freshVal(prefix string, t types.Type) Val {
 		}
 		return Val{K: KStruct, Typ: t, Fs: fs}
 	case *types.Slice:
+		// WLOG a symbolic slice starts at offset 0 of its backing array (a view (id, off, len) behaves like
+		// (id', 0, len) for code that neither compares backing arrays nor aliases two slice arguments)
 		id := ex.fresh(prefix+"#id", "Int")
-		off := ex.fresh(prefix+"#off", "Int")
 		ln := ex.fresh(prefix+"#len", "Int")
 		st.assume("(>= " + id + " 0)")
-		st.assume("(>= " + off + " 0)")
 		st.assume("(>= " + ln + " 0)")
 		st.assume(implies(eq(id, "0"), eq(ln, "0")))
-		return Val{K: KSlice, Typ: t, Fs: []Val{term(id, tInt), term(off, tInt), term(ln, tInt)}}
+		return Val{K: KSlice, Typ: t, Fs: []Val{term(id, tInt), term("0", tInt), term(ln, tInt)}}
 	case *types.Tuple:
 		if u.Len() == 0 {
 			return Val{K: KUnit}
